@@ -181,7 +181,9 @@ DOC_MUST = [
     ("value designated by a live reference", _liveref, _corrupt_liveref),
     ("status of a reference", lambda ev: _isop(ev) and ev["obs"]["refs"][0]["st"] in ("live", "unbound"),
      lambda ev: ev["obs"]["refs"][0].__setitem__("st", "unbound" if ev["obs"]["refs"][0]["st"] == "live" else "live")),
-    ("return value", lambda ev: _isop(ev) and ev["ret"] in ("true", "false"),
+    # (only where the abstract state determines the result: a void converter on a target that cannot be resolved
+    #  reports whatever the unbound reference's resource manager says - "dontcare" in Document.tla)
+    ("return value", lambda ev: _isop(ev) and ev["ret"] in ("true", "false") and ev["op"]["op"] in ("docsetv", "docset"),
      lambda ev: ev.__setitem__("ret", "false" if ev["ret"] == "true" else "true")),
     ("isLinked() of a string", lambda ev: _isop(ev) and ev["obs"]["docs"][0]["root"]["t"] == "s", _flip(("obs", "docs", 0, "root", "k"))),
 ]
